@@ -3,7 +3,7 @@ cases, execution against pvl with the recogniser as oracle."""
 from . import core, gen, refparse, chan, dialects
 from .gen import (Tok, NAME, NUM, STR, DATE, KWVAL, BEGIN_G, BEGIN_O, END_G,
                   END_O, END, EQ, COMMA, LP, RP, LB, RB, SEMI, UNITS, PARTIAL,
-                  BADUNITS)
+                  BADUNITS, ODDSPACE)
 
 REPLACEMENTS = [
     (NAME, "Zq9", ("str", "Zq9")), (NUM, "5", ("int", 5)),
@@ -14,6 +14,7 @@ REPLACEMENTS = [
     (END_O, "END_OBJECT", None), (UNITS, "<u>", None),
     (KWVAL, "NULL", ("none",)), (DATE, "2001-01-01", ("date", "2001-01-01")),
     (BADUNITS, "<m<s>", None), (BADUNITS, "<km x = 3 <m>", None),
+    (ODDSPACE, "\x1c", None), (ODDSPACE, "\x1f\x1e", None),
 ]
 OPPOSITE = {END_G: (END_O, "END_OBJECT"), END_O: (END_G, "END_GROUP"),
             BEGIN_G: (BEGIN_O, "OBJECT"), BEGIN_O: (BEGIN_G, "GROUP"),
